@@ -136,6 +136,7 @@ pub fn simple_beh_gecko(reg: &str, occ: &[&str], nframes: usize, nitems: usize, 
 		meta: "some".into(),
 		fin,
 		steps,
+		dump: vec![],
 		emit: vec![],
 		table,
 		counts: Default::default(),
